@@ -449,7 +449,7 @@ func (h *hgen) mutate(c string) {
 	}
 	nm := g.Range(1, 3)
 	for k := 0; k < nm; k++ {
-		switch g.Intn(12) {
+		switch g.Intn(14) {
 		case 0: // server added / removed
 			if len(v.Servers) > 1 && g.Bool() {
 				i := g.Intn(len(v.Servers))
@@ -521,6 +521,26 @@ func (h *hgen) mutate(c string) {
 			h.feat["cert"] = true
 		case 10:
 			v.CA = g.Pick([]string{"", "v1", "v2"})
+		case 12: // client connection settings change (excepted from the comparison, must not disturb anything else)
+			v.Client = g.Intn(6)
+			h.feat["client-settings-change"] = true
+		case 13: // boundary shapes: the same endpoint listed twice (with different disabled flags), a schema with limit 0
+			if g.Bool() && len(v.Servers) > 0 {
+				d := v.Servers[g.Intn(len(v.Servers))]
+				d.Disabled = !d.Disabled
+				v.Servers = append(v.Servers, d)
+				h.feat["duplicate-server-entry"] = true
+			} else if len(v.Schemas) > 0 {
+				i := g.Intn(len(v.Schemas))
+				if v.Schemas[i].Kind == "max" {
+					v.Schemas[i].A = 0
+					if v.Schemas[i].GA > 0 && g.Bool() {
+						v.Schemas[i].GA = 0
+						v.Schemas[i].Strategy = ""
+					}
+					h.feat["zero-limit-schema"] = true
+				}
+			}
 		case 11: // restore an earlier value: go back to the first version's field
 			for _, u := range h.ups {
 				if u.Cluster == c && !u.Deleted {
@@ -775,6 +795,7 @@ type runner struct {
 	staleSeen   bool
 	outcome     map[int]string // version id -> outcome of its last delivery
 	failedSyncs int
+	resyncs     int
 	notFailing  []string
 	panics      []string
 	// emulate: deliver the lister's current object instead of the event's object (what a controller that always syncs
@@ -881,6 +902,16 @@ func (rn *runner) run(g *vkit.Rand, lag bool) {
 		if len(rn.pending) > 0 && g.Chance(0.25) {
 			rn.redeliver(g.Intn(len(rn.pending)))
 			continue
+		}
+		if rn.L > 0 && g.Chance(0.08) {
+			// informer resync: the object the lister currently holds is delivered once more (UpdateFunc with old == new)
+			u := rn.ups[g.Intn(rn.L)]
+			if cur := rn.lister[u.Cluster]; cur != nil && !cur.Deleted {
+				if o, ok, _ := rn.gw.Indexer.GetByKey(cur.Cluster); ok {
+					rn.deliver("resync", cur, o.(*proxyv1alpha1.UpstreamCluster), nil)
+					rn.resyncs++
+				}
+			}
 		}
 		for rn.L < i+1 {
 			rn.advanceLister()
@@ -995,7 +1026,7 @@ func TestCheck(t *testing.T) {
 		initMaterial()
 		r.Rule("seeded random histories: 1-3 clusters, 3-30 versions each (servers added/removed/disabled, feature-gate annotation set/changed/removed/annotations removed, " +
 			"flow-control schemas added/removed/resized/type-changed and with cluster-wide variants (strategy local/globalAllocate/globalCount, global limit >= local) incl. updates that change ONLY strategy / global limit, dispatch policies regenerated, logging switched, aliases added/removed, serving key pair swapped/removed/made incomplete, " +
-			"client CA swapped/removed, earlier values restored, delete and re-create). Three modes: in-order (every update delivered at once, no name conflicts), " +
+			"client CA swapped/removed, earlier values restored, client connection settings changed (excepted from the comparison), the same endpoint listed twice, a schema limit of 0, delete and re-create; informer resyncs re-deliver the current version). Three modes: in-order (every update delivered at once, no name conflicts), " +
 			"requeue (aliases may collide with another cluster's, the refused version is requeued and re-delivered later - also after newer versions; the lister may run ahead of the events), " +
 			"failed-sync (as requeue, plus versions that cannot be applied - whether or not admission would have let them through - one kind per sub-syncer of ClusterInfo.Sync: invalid feature-gate annotation, " +
 			"unparsable client CA, mismatched / garbage key pair, unusable endpoint URL appended or first; also as the first version of a cluster = create-path failure; such a version changes other fields too, " +
@@ -1085,6 +1116,7 @@ func TestCheck(t *testing.T) {
 			}
 			r.Count("redeliveries", nre)
 			r.Count("failed_syncs", rn.failedSyncs)
+			r.Count("resync_deliveries", rn.resyncs)
 			for _, k := range rn.notFailing {
 				r.Count("unappliable_version_was_applied:"+k, 1)
 			}
@@ -1167,7 +1199,8 @@ func TestCheck(t *testing.T) {
 		r.Require(r.Counter("clusters_compared") >= int64(nh), "too few clusters compared")
 		r.Require(atomic.LoadInt64(&candidatesUnobservable) == 0, "the candidate endpoints of a policy could not be listed (an unreachable endpoint kept reporting ready)")
 		r.Require(atomic.LoadInt64(&cfgCompared) >= int64(nh), "the recorded schema configuration (Config()) could not be read from the limiter")
-		for _, f := range []string{"gates", "schemas", "global-only-change", "cert", "delete", "conflict", "stale-macro"} {
+		r.Require(r.Counter("resync_deliveries") >= int64(nh), "too few informer resync deliveries")
+		for _, f := range []string{"client-settings-change", "duplicate-server-entry", "zero-limit-schema", "recreate", "gates", "schemas", "global-only-change", "cert", "delete", "conflict", "stale-macro"} {
 			r.Require(feat[f] >= nh/20, "history feature "+f+" under-represented")
 		}
 		for _, f := range []string{"fail:feature-gates", "fail:client-ca", "fail:key-pair", "fail:endpoints", "fail:create", "partial-repair"} {
